@@ -587,7 +587,22 @@ pub fn ev_hostile(w: &mut World, target: &HostileTarget, mutation: &HostileMut, 
     LARGEST.store(0, Ordering::Relaxed);
     let budget = 512 * bytes.len() + (1 << 20);
     let users: Vec<usize> = (0..w.users.len()).filter(|u| w.users[*u].usk.is_some()).take(3).collect();
-    let slots: Vec<usize> = (0..w.slots.len()).filter(|s| w.slots[*s].kind == SlotKind::Kem).take(3).collect();
+    // stored encapsulations a parsed key is tried on: the first classic, the first hybridized,
+    // then others (at most 4)
+    let mut slots: Vec<usize> = vec![];
+    for want_hybrid in [false, true] {
+        if let Some(i) = (0..w.slots.len()).find(|s| w.slots[*s].kind == SlotKind::Kem && w.slots[*s].m.hybrid == want_hybrid) {
+            slots.push(i);
+        }
+    }
+    for i in 0..w.slots.len() {
+        if slots.len() >= 4 {
+            break;
+        }
+        if w.slots[i].kind == SlotKind::Kem && !slots.contains(&i) {
+            slots.push(i);
+        }
+    }
     let mut stage = "parse";
     let mut parsed_ok = false;
     let r = guard(|| {
@@ -731,7 +746,7 @@ pub fn sweep_hostile(w: &mut World, target: &HostileTarget, parser: &Parser, str
                 }
             }
         }
-        for which in 0..4u8 {
+        for which in 0..7u8 {
             ev_hostile(w, target, &HostileMut::Empty { which }, parser);
             w.outcomes.pop();
             n += 1;
